@@ -268,9 +268,10 @@ fn exec_action(pool: &Pool<Mgr>, sh: &Sh, tasks: &mut HashMap<String, Task>, ste
                 "take" => {
                     let t = tasks.get_mut(a[1].as_str().unwrap()).unwrap();
                     let o = t.objs.remove(a[2].as_u64().unwrap() as usize);
+                    let oid = format!("obj:{}", o.id);
+                    ev(sh, json!(["handed", oid, "take"]));
                     let r = catch_unwind(AssertUnwindSafe(|| {
                         let raw = Object::take(o);
-                        ev(sh, json!(["handed", format!("obj:{}", raw.id), "take"]));
                         drop(raw);
                     }));
                     res = if r.is_ok() { json!(["ok", "taken"]) } else { json!(["panic"]) };
